@@ -16,7 +16,6 @@ import (
 	"errors"
 	"fmt"
 	"math/rand"
-	"net"
 	"runtime"
 	"sort"
 	"strconv"
@@ -297,6 +296,8 @@ type world struct {
 	newErr    error
 	newDone   bool
 	inspected []inspected
+
+	sessionsAtEnd []fakeredis.SessionInfo
 }
 
 func (w *world) wit(extra map[string]any) map[string]any {
@@ -357,8 +358,10 @@ func (w *world) client(cl rueidis.Client) {
 	key := "k:{c47}"
 	u := add("read")
 	fin(u, cl.Do(ctx, cl.B().Arbitrary("VERIF.ECHO").Keys(key).Args(u.uid).ReadOnly()))
-	u = add("write")
-	fin(u, cl.Do(ctx, cl.B().Arbitrary("VERIF.WRITE").Keys(key).Args(u.uid).Build()))
+	if w.c.kind != "sentinel-replicaonly" { // a replica refuses writes, that is not a matter of connection setup
+		u = add("write")
+		fin(u, cl.Do(ctx, cl.B().Arbitrary("VERIF.WRITE").Keys(key).Args(u.uid).Build()))
+	}
 	u = add("dedicated")
 	_ = cl.Dedicated(func(dc rueidis.DedicatedClient) error {
 		fin(u, dc.Do(ctx, dc.B().Arbitrary("VERIF.ECHO").Keys(key).Args(u.uid).ReadOnly()))
@@ -401,7 +404,10 @@ func (w *world) body() {
 		s = fakeredis.New(opts, aP1)
 	}
 	w.srv = s
-	defer s.Close()
+	defer func() {
+		s.Close()
+		time.Sleep(time.Minute) // virtual: delayed refreshes and delayed closes of the client run out; what is still blocked then is a leak
+	}()
 
 	// the failing step: an error reply to that setup command on the data nodes
 	if c.step != "" {
@@ -462,7 +468,8 @@ func (w *world) body() {
 		buf = buf[:runtime.Stack(buf, true)]
 		w.run.Violation("hang", c.kind+"|server="+c.server+"|step="+c.step, w.wit(map[string]any{"rueidis_frames": drv.RueidisFrames(string(buf))}))
 	}
-	if cl != nil {
+	w.sessionsAtEnd = s.Sessions()
+	if finished && w.newErr == nil && cl != nil { // NewClient returns typed nil pointers inside the interface on error
 		go cl.Close()
 		time.Sleep(3 * time.Second)
 	}
@@ -494,6 +501,7 @@ type connFacts struct {
 	setup      []string // joined argv of the setup commands received before the first user command, in order
 	errors     map[string]string
 	injected   map[string]bool // steps that got the injected failure
+	everErr    map[string]bool // steps that were answered with an error at least once
 	helloNoCmd bool            // HELLO 3 was answered "unknown command"
 	userCmds   int
 	firstUser  int // index in setup order at which the first user command arrived (len(setup) at that time)
@@ -504,7 +512,7 @@ func (w *world) facts(log []fakeredis.Event) map[int64]*connFacts {
 	get := func(e fakeredis.Event) *connFacts {
 		f := out[e.Conn]
 		if f == nil {
-			f = &connFacts{node: e.Node, errors: map[string]string{}, injected: map[string]bool{}, firstUser: -1}
+			f = &connFacts{node: e.Node, errors: map[string]string{}, injected: map[string]bool{}, everErr: map[string]bool{}, firstUser: -1}
 			out[e.Conn] = f
 		}
 		return f
@@ -529,13 +537,18 @@ func (w *world) facts(log []fakeredis.Event) map[int64]*connFacts {
 				get(e).injected[stepOf(e.Argv)] = true
 			}
 		case "reply":
-			if isSetupName(e.Argv) && (e.Reply.T == '-' || e.Reply.T == '!') {
+			if isSetupName(e.Argv) {
 				f := get(e)
 				st := stepOf(e.Argv)
-				if st == "HELLO" && strings.Contains(e.Reply.S, "unknown command") {
+				isErr := e.Reply.T == '-' || e.Reply.T == '!'
+				switch {
+				case isErr && st == "HELLO" && strings.Contains(e.Reply.S, "unknown command"):
 					f.helloNoCmd = true
-				} else if _, dup := f.errors[st]; !dup {
-					f.errors[st] = e.Reply.S
+				case isErr:
+					f.errors[st] = e.Reply.S // what counts is the last time the step was tried
+					f.everErr[st] = true
+				default:
+					delete(f.errors, st)
 				}
 			}
 		}
@@ -570,9 +583,6 @@ func (w *world) check(log []fakeredis.Event) {
 			}
 			// errors of the RESP3 attempt on a server without HELLO are repeated in the RESP2 sequence: what counts is
 			// whether the step failed the last time it was tried - decided below through the session record
-			if f.helloNoCmd && !f.injected[st] {
-				continue
-			}
 			run.Violation("user-command-after-failed-step", keyBase+"|failed="+st, wit(map[string]any{"failed_step": st, "reply": msg}))
 		}
 		wantProto := 3
@@ -645,13 +655,10 @@ func (w *world) check(log []fakeredis.Event) {
 		case "disabled":
 			wantLib, wantVer = "", ""
 		}
-		if _, failed := f.errors["CLIENT SETINFO LIB-NAME"]; failed {
-			wantLib = ""
-		}
-		if _, failed := f.errors["CLIENT SETINFO LIB-VER"]; failed {
-			wantVer = ""
-		}
-		if in.sess.LibName != wantLib || in.sess.LibVer != wantVer {
+		// a tolerated SETINFO failure leaves that attribute unset (or set by an earlier, successful try on a server without HELLO)
+		libOK := in.sess.LibName == wantLib || (f.everErr["CLIENT SETINFO LIB-NAME"] && in.sess.LibName == "")
+		verOK := in.sess.LibVer == wantVer || (f.everErr["CLIENT SETINFO LIB-VER"] && in.sess.LibVer == "")
+		if !libOK || !verOK {
 			bad = append(bad, fmt.Sprintf("lib=%q/%q want %q/%q", in.sess.LibName, in.sess.LibVer, wantLib, wantVer))
 		}
 		if len(bad) > 0 {
@@ -742,7 +749,17 @@ func (w *world) check(log []fakeredis.Event) {
 	failed := w.newErr != nil
 	var firstErr error = w.newErr
 	okCalls := 0
+	reached := map[string]bool{}
+	for _, e := range log {
+		if e.Kind == "recv" && len(e.Argv) > 2 && strings.HasPrefix(strings.ToUpper(e.Argv[0]), "VERIF.") {
+			reached[e.Argv[2]] = true
+		}
+	}
 	for _, u := range w.calls {
+		if u.done && u.err != nil && reached[u.uid] {
+			run.Observe("calls_served_with_an_error_reply", 1) // e.g. MOVED on a dedicated connection after a tolerated READONLY failure
+			continue
+		}
 		if u.done && u.err != nil {
 			failed = true
 			if firstErr == nil {
@@ -841,7 +858,7 @@ func TestC47(t *testing.T) {
 		w := &world{run: run, id: i, c: genCfg(r, i)}
 		dl, stacks := drv.Bubble(t, w.body)
 		if dl != "" {
-			run.Violation("hang-or-leak", w.c.kind+"|server="+w.c.server+"|step="+w.c.step, w.wit(map[string]any{"synctest": dl, "rueidis_frames": drv.RueidisFrames(stacks)}))
+			run.Violation("hang-or-leak", w.c.kind+"|server="+w.c.server+"|step="+w.c.step, w.wit(map[string]any{"synctest": dl, "rueidis_frames": drv.RueidisFrames(stacks), "stacks": drv.Tail(stacks, 9000)}))
 		}
 		if i < 6 {
 			var ins []string
@@ -853,5 +870,4 @@ func TestC47(t *testing.T) {
 	}
 	run.Require("sessions_inspected_at_first_user_command", "setup_sequences_checked", "sentinel_sessions_checked", "errnocache_refusals", "refused_after_failed_step", "all_calls_served",
 		"tolerated_failures_survived", "injected_step_failures", "readonly_sessions", "resp2_sessions", "tolerated_step_errors_seen")
-	_ = net.IPv4len
 }
